@@ -1,7 +1,9 @@
 import Properties.C02
+import Properties.Full
 #print axioms Hive.C02.runInv
 #print axioms Hive.C02.instructions
 #print axioms Hive.C02.updates
 #print axioms Hive.C02.reachable
 #print axioms Hive.C02.initial
 #print axioms Hive.C02.loaded_layout
+#print axioms Hive.Full.C02
